@@ -45,6 +45,11 @@ def _build():
             kept = tuple(f for i, f in enumerate(fields) if mask >> i & 1)
             msgs.append(Msg(f"{name}_O{mask}", kept))
     msgs.append(Msg("K", (Field("k1", 5, "int32"), Field("k2", 100, "string"))))
+    # nested type evolution: newer nested type Sub{a, s}; the older schema has a field-less placeholder
+    msgs.append(Msg("NN", (Field("one", 1, "msg:Sub"), Field("many", 2, "msg:Sub", "repeated"),
+                           Field("by", 3, "msg:Sub", "map", key="string"), Field("v", 4, "int32"))))
+    msgs.append(Msg("NN_old", (Field("one", 1, "msg:Empty"), Field("many", 2, "msg:Empty", "repeated"),
+                               Field("by", 3, "msg:Empty", "map", key="string"), Field("v", 4, "int32"))))
     schema = Schema("vfc08", (COLOR,), tuple(msgs))
     return schema, build_bp(schema, "vf_c08"), build_ref(schema)
 
@@ -297,15 +302,54 @@ def _shard_b(shard: int, nshards: int, extra) -> Tally:
     return t
 
 
+NN_VALUES = [
+    {"one": {"a": 1}}, {"one": {"s": "x", "a": -1}}, {"many": [{"a": 1}, {}, {"s": "q"}]},
+    {"by": {"k": {"a": 5}}}, {"by": {"": {"s": "z"}, "k": {}}}, {"one": {"a": 2}, "many": [{"a": 3}], "by": {"k": {"a": 4}}, "v": 9},
+]
+
+
+def eval_nested_evolution(v, tally: Tally):
+    """The older reader knows the nested field but not the nested type's fields."""
+    schema, bp, ref = state()
+    newer, older = schema.msg("NN"), schema.msg("NN_old")
+    data = av.make_ref(schema, ref, newer, v).SerializeToString()
+    fails = []
+    try:
+        o = bp.NN_old().parse(data)
+        back = bytes(o)
+        tally.inc("edges", 2)
+    except Exception as e:
+        return [("nested-old-decode", f"{type(e).__name__}: {e}"[:160])]
+    exp = av.normalize(schema, newer, v)
+    try:
+        n2 = bp.NN().parse(back)
+        got = av.project_bp(schema, newer, n2)
+        tally.inc("edges")
+        if not av.aval_eq(got, exp):
+            fails.append(("nested-evolution-lossy", f"after the older reader/writer the newer reader sees {av.to_jsonable(got)!r}, expected {av.to_jsonable(exp)!r}"))
+        r = ref.cls("NN").FromString(back)
+        if not av.aval_eq(av.project_ref(schema, newer, r), exp):
+            fails.append(("nested-ref-evolution-lossy", "reference decodes a different message from the re-emitted bytes"))
+    except Exception as e:
+        fails.append(("nested-evolution-lossy", f"{type(e).__name__}: {e}"[:160]))
+    return fails
+
+
 def run(ctx: Ctx) -> None:
     schema, bp, ref = state()
     _S["values"] = {name: newer_values(schema, name) for name in NEWER}
     ta = merge_tallies(pmap_shards(_shard_a, 64, None))
     tb = merge_tallies(pmap_shards(_shard_b, 64, ctx.quick))
-    for t in (ta, tb):
+    tc = Tally()
+    for vi, v in enumerate(NN_VALUES):
+        tc.inc("cases")
+        for oracle, detail in eval_nested_evolution(v, tc):
+            tc.violate(Violation(["evolution", oracle, "nested-type-without-fields"],
+                                 f"NN value={av.to_jsonable(v)!r}: {detail}"[:500], {"part": "C", "vi": vi}))
+    for t in (ta, tb, tc):
         for vj in t.violations:
             ctx.add(Violation.from_json(vj))
-    states = ta.n.get("cases", 0) + tb.n.get("cases", 0)
+    states = ta.n.get("cases", 0) + tb.n.get("cases", 0) + tc.n.get("cases", 0)
     ctx.coverage.update(
         states=states,
         transitions=ta.n.get("edges", 0) + tb.n.get("edges", 0),
@@ -332,6 +376,9 @@ def replay(case: dict) -> List[Violation]:
     schema, bp, ref = state()
     t = Tally()
     out = []
+    if case["part"] == "C":
+        return [Violation(["evolution", o, "nested-type-without-fields"], d, case)
+                for o, d in eval_nested_evolution(NN_VALUES[case["vi"]], t)]
     if case["part"] == "A":
         v = av.from_jsonable(case["value"])
         for oracle, detail in eval_evolution(case["name"], v, case["mask"], t):
